@@ -285,6 +285,9 @@ class ExecBase:
             return t.sort().n(v.term) > 0
         if t.kind == 'tuple':
             return z3.BoolVal(len(v.term) > 0)
+        if t.kind == 'set':
+            x = z3.Const(fresh_name('sx'), t.args[0].sort())
+            return z3.Exists([x], z3.Select(v.term, x))
         if t.kind == 'py':
             return z3.BoolVal(True)
         if t.kind == 'obj':
@@ -302,6 +305,14 @@ class ExecBase:
             if c == 'optbool':
                 return z3.And(v.term != NONE, smt.unbox_bool(v.term))
             if c == 'any':
+                if self.C is not None and getattr(self.C, 'any_containers', False) and 'dict_items' in self.spec.fields:
+                    # (per-function option) a value of type Any that is a dict / list object is truthy iff it is non-empty (A10)
+                    d = self.read_field(v.term, 'dict_items')
+                    out = z3.If(smt.issub(smt.tag(v.term), smt.CLASSES['dict']), d.ty.sort().n(d.term) > 0, smt.truthy_any(v.term))
+                    if 'list_items' in self.spec.fields:
+                        l = self.read_field(v.term, 'list_items')
+                        out = z3.If(smt.issub(smt.tag(v.term), smt.CLASSES['list']), l.ty.sort().len(l.term) > 0, out)
+                    return out
                 return smt.truthy_any(v.term)
             return v.term != NONE   # plain objects without __bool__/__len__ are truthy
         raise Unsupported('truthiness of %r' % (t,))
